@@ -983,15 +983,61 @@ C12_SPECIAL = [
 ]
 
 
+def _twin_body(ctor_args, all8=True, default=True):
+    """compare dx::T and sd::T built from the same constructor expressions"""
+    a = ", ".join("dx::" + c for c in ctor_args)
+    b = ", ".join("sd::" + c for c in ctor_args)
+    n = len(ctor_args)
+    src = """let a = vec![%s]; let b = vec![%s];
+        let mut diff = String::new();
+        let debug_equal = a.iter().zip(b.iter()).all(|(x, y)| { let (p, q) = (format!("{:?}", x), format!("{:?}", y)); if p != q { diff = format!("{} vs {}", p, q); } p == q })
+            && a.iter().zip(b.iter()).all(|(x, y)| format!("{:#?}", x) == format!("{:#?}", y));
+        let eq_equal = ::dx_support::table_eq(&a) == ::dx_support::table_eq(&b) && a.iter().all(|x| x.clone() == *x);
+        let cmp_equal = ::dx_support::table_cmp(&a) == ::dx_support::table_cmp(&b);
+        let pcmp_equal = ::dx_support::table_pcmp(&a) == ::dx_support::table_pcmp(&b) && ::dx_support::table_ops(&a) == ::dx_support::table_ops(&b);
+        let hash_consistent = ::dx_support::law_eq_hash(&a) == -1;
+        format!("{{\\"id\\":IDX,\\"nvals\\":%d,\\"debug_equal\\":{},\\"eq_equal\\":{},\\"cmp_equal\\":{},\\"pcmp_equal\\":{},\\"hash_consistent\\":{},\\"diff\\":\\"{}\\"}}\\n", debug_equal, eq_equal, cmp_equal, pcmp_equal, hash_consistent, ::dx_support::json_str(&diff))""" % (a, b, n)
+    return src
+
+
+ALL8 = ["Clone", "Debug", "Default", "PartialEq", "Eq", "PartialOrd", "Ord", "Hash"]
+ALL7 = ["Clone", "Debug", "PartialEq", "Eq", "PartialOrd", "Ord", "Hash"]
+# items produced by macro_rules! whose types / names / parameters are fragments passed by the caller (two hygiene contexts in one item)
+C12_SPECIAL += [
+    ("macro_rules_param_as_field_type", ALL8,
+     "macro_rules! mk { ($name:ident, $p:ident) => { @HEAD@ pub struct $name<$p>(pub $p, pub u8); } } mk!(T, G);",
+     _twin_body(["T::<u8>(1, 2)", "T::<u8>(1, 3)", "T::<u8>(0, 9)"])),
+    ("macro_rules_ty_fragment_named", ALL8,
+     "macro_rules! mk { ($name:ident, $t:ty) => { @HEAD@ pub struct $name { pub a: $t, pub b: u8 } } } mk!(T, u32);",
+     _twin_body(["T { a: 1, b: 2 }", "T { a: 1, b: 3 }", "T { a: 0, b: 9 }"])),
+    ("macro_rules_tt_fragment_enum", ALL7,
+     "macro_rules! mk { ($name:ident, $p:ident, $t:tt, $u:ty) => { @HEAD@ pub enum $name<$p> { A($t, $p), B { x: $u, y: $t }, C } } } mk!(T, G, u8, (bool, u8));",
+     _twin_body(["T::<u8>::A(1, 2)", "T::<u8>::A(1, 3)", "T::<u8>::B { x: (true, 1), y: 4 }", "T::<u8>::B { x: (false, 1), y: 4 }", "T::<u8>::C"])),
+    ("macro_rules_field_and_variant_names", ALL7,
+     "macro_rules! mk { ($name:ident, $f:ident, $v:ident) => { @HEAD@ pub enum $name { $v { $f: u8, other: u8 }, W(u16), Z } } } mk!(T, this, Other);",
+     "COMPILE_ONLY"),
+    ("macro_rules_field_names_struct", ALL8,
+     "macro_rules! mk { ($name:ident, $f:ident, $g:ident) => { @HEAD@ pub struct $name { pub $f: u8, pub $g: u8, pub tail: u8 } } } mk!(T, this, __other);",
+     _twin_body(["T { this: 1, __other: 2, tail: 0 }", "T { this: 1, __other: 3, tail: 0 }", "T { this: 0, __other: 9, tail: 1 }"])),
+    ("macro_rules_nested_two_levels", ALL8,
+     "macro_rules! outer { ($name:ident, $t:ty) => { inner!($name, $t, u8); } } macro_rules! inner { ($name:ident, $t:ty, $u:ty) => { @HEAD@ pub struct $name(pub $t, pub $u); } } outer!(T, u32);",
+     _twin_body(["T(1, 2)", "T(1, 3)", "T(0, 9)"])),
+]
+
+
 def c12_special_module(idx, spec, entry):
     name, traits, item, body = spec
     if item == "BIG_ENUM":
         # 300 unit variants (positions beyond one byte) and a constructor by position
         vs = ["V%03d" % k for k in range(300)]
         item = "pub enum T { %s }\n        pub fn pick(k: usize) -> T { const ALL: [T; 300] = [%s]; ALL[k].clone() }" % (", ".join(vs), ", ".join("T::" + v for v in vs))
+    if "@HEAD@" in item:       # the derive request is written INSIDE a macro_rules! body: tokens of the item come from two hygiene contexts
+        dx_item, sd_item = item.replace("@HEAD@", derive_head(traits, entry)), item.replace("@HEAD@", "#[derive(%s)]" % ", ".join(traits))
+    else:
+        dx_item, sd_item = "%s %s" % (derive_head(traits, entry), item), "#[derive(%s)] %s" % (", ".join(traits), item)
     lines = ["pub mod m%d {" % idx,
-             "    pub mod dx { %s %s }" % (derive_head(traits, entry), item),
-             "    pub mod sd { #[derive(%s)] %s }" % (", ".join(traits), item)]
+             "    pub mod dx { %s }" % dx_item,
+             "    pub mod sd { %s }" % sd_item]
     if body is None or body == "COMPILE_ONLY":
         body = "format!(\"{{\\\"id\\\":IDX,\\\"nvals\\\":0,\\\"diff\\\":\\\"\\\"}}\\n\")"
     lines.append("    pub fn run() -> String {\n        %s\n    }\n}" % body.replace("IDX", str(idx)))
